@@ -346,3 +346,38 @@ def check_C17(run: Run):
                 'PluribusState of the operation log of the validated original hand; Pluribus lines are parsed back and the replay '
                 'compared (betting actions, stacks, board); exact punctuation beyond the token structure is not re-specified')
     run.need('parsed_back', 'cut_mid_hand', 'pluribus_lines', 'muck', 'op:CBR')
+
+
+def _site_spec(rng, **kw):
+    spec = games.random_spec(rng, variants=['NT'], boards=(1,), max_n=9, ante_p=0.0, straddle_p=0.0, rake_p=0.0, autos=[a.value for a in games.ALL_AUTOS],
+                             mode='C')
+    spec['blinds'] = [1, 2] + [0] * (spec['n'] - 2)
+    spec['sb'] = spec['bb'] = 2
+    spec['stacks'] = [rng.choice([rng.randint(5, 40), rng.randint(40, 400)]) for _ in range(spec['n'])]
+    spec['werr'] = False
+    return spec
+
+
+def check_C20(run: Run):
+    from . import sites
+    rng = random.Random(run.seed * 31 + 20)
+    q = run.tier == 'quick'
+    pol = dict(probe_level=0, probe_every=0.0, illegal=0.0, noop=0.0, runout=0.0, partial_show=0.0, explicit_cards=0.0)
+    ps = _pairs(run, rng, 240 if q else 3000, twins.site_pair, dict(), dict(pol, raise_=0.35, fold=0.22), spec_fn=_site_spec)
+    ps += _pairs(run, rng, 240 if q else 3000, twins.site_pair, dict(), dict(pol, raise_=0.4, fold=0.06, allin=0.15), spec_fn=_site_spec, tid0=10000)
+    for p in ps:
+        run.count('site:' + p['site'])
+        if p['parsed']:
+            run.count('imported_and_replayed')
+        if any(ev['op'] == 'show_or_muck_hole_cards' for ev in p['A']['steps']) or any(
+                o['k'] == 'SM' for ev in [p['A']['create']] + p['A']['steps'] for o in (ev.get('post') or {}).get('log', [])):
+            run.count('hands_with_showdown')
+    twins.validate_pairs(run, ps, 'C20_render-import-replay', 'C20')
+    run.sample({'site': ps[0]['site'], 'log_text': ps[0]['text'], 'source_hand': T.short_hand(ps[0]['A'])})
+    run.rule = ('no-limit hold\'em hands (2-9 seats, any button seat, folds/calls/raises/all-ins, showdown or not) played on the engine '
+                'and validated against the model, rendered in each of the six site formats by the harness\' renderers (trusted base: '
+                'written from public knowledge of the formats, emitting only constructs the importers\' patterns name), imported, '
+                'replayed; TLC decides equality of betting actions in raise-to form, board, stacks and payoffs and requires the '
+                'observed facts (one hand, players in position order, seats, blinds, stacks, unknown game reported) to be true. '
+                'iPoker logs carry no show lines: rendered for hands without showdown only')
+    run.need(*['site:' + s for s in sites.RENDER], 'imported_and_replayed', 'hands_with_showdown')
